@@ -401,6 +401,23 @@ fn check_template(case: &Json, stats: &mut Stats) -> Verdict {
             );
         }
     }
+    // readings that split a multi-character operator: whatever the text means, it never means those
+    for f in case["forbidden"].as_array().into_iter().flatten().filter_map(|f| f.as_str()) {
+        stats.eval();
+        let split = run_one(f);
+        if split.starts_with("value") && got == split && exp_key != split {
+            return fail(
+                format!("C14:template-split:{name}"),
+                format!("`{prelude}{flat}` gives [{got}], which is what `{f}` gives - the reading that splits the operator; the table reads it as `{expected}`"),
+            );
+        }
+        if split.starts_with("value") && got == split && !case["expected_may_equal_split"].as_bool().unwrap_or(false) {
+            return fail(
+                format!("C14:template-split:{name}"),
+                format!("`{prelude}{flat}` gives [{got}], the value of the split reading `{f}`; by the documented operand types the unsplit operator does not apply to these operands at all"),
+            );
+        }
+    }
     if got != exp_key {
         return fail(
             format!("C14:template:{name}"),
@@ -627,6 +644,24 @@ fn templates() -> Vec<Json> {
     ] {
         let others: Vec<&str> = others;
         t.push(tpl("tokenisation", name, tp, flat, expected, &others, false));
+    }
+    // `**` (and `**=`) in front of a cell: `* *m` would be well typed, `** m` is not (the documented
+    // operands of ** are numbers), so the text may be rejected but never has the value of the product
+    let tc = "m := mut 3; x := 2; c2 := mut 2; ";
+    for (name, flat, expected, split) in [
+        ("pow then cell unspaced", "x**m", "x ** m", "x * (*m)"),
+        ("pow then cell", "x **m", "x ** m", "x * (*m)"),
+        ("pow spaced then cell", "x ** m", "x ** m", "x * (*m)"),
+        ("pow then cell in a sum", "1 + x **m + 1", "1 + (x ** m) + 1", "1 + (x * (*m)) + 1"),
+        ("pow then cell literal base", "2 **m", "2 ** m", "2 * (*m)"),
+        ("pow then cell float", "2.5 **m", "2.5 ** m", "2.5 * (*m)"),
+        ("pow assign then cell", "r := c2 **=m; (r, *c2)", "r := (c2 **= m); (r, *c2)", "r := (c2 *= (*m)); (r, *c2)"),
+        ("pow assign spaced then cell", "r := c2 **= m; (r, *c2)", "r := (c2 **= m); (r, *c2)", "r := (c2 *= (*m)); (r, *c2)"),
+        ("and then deref", "true &&*(mut true)", "true && (*(mut true))", "true & (*(mut false))"),
+    ] {
+        let mut case = tpl("tokenisation", name, tc, flat, expected, &[], false);
+        case["forbidden"] = json!([split]);
+        t.push(case);
     }
     // chains of the iterator operators with the value their grouping means: the operators apply one
     // after the other, each to what the one before it made - a predicate only sees elements, a chain
